@@ -304,6 +304,107 @@ def r27c(ctx, run):
         if n.get("k") == "mcall" and n["m"] in ("to_lowercase", "to_uppercase", "to_ascii_lowercase", "to_ascii_uppercase", "trim"):
             n_tr += 1
             run.finding(F, "fold:%s" % n["m"], fn.file, n["ln"], "path component transformation .%s() is not injective" % n["m"])
+    # the normalisation evaluated on sample components: any two different directory components that get the same symbol part, other than
+    # through the two transformations reported above ('.' -> '-', the .capy strip), is a further way for two files to share a symbol
+    from symint import SymInterp
+    from absint import Panic, CannotEstablish, Variant
+    import os.path as _osp
+    maps = [m2 for m2 in walk(fn.body) if m2.get("k") == "mcall" and m2["m"] == "map" and m2["a"] and m2["a"][0].get("k") == "closure"
+            and any(x.get("k") in ("if", "mcall") and ("replace" in canon(x) or "strip" in canon(x) or "stem" in canon(x)) for x in walk(m2["a"][0]))]
+    if not maps:
+        raise LookupError("the closure of get_components that normalises a path component")
+    clo = maps[-1]["a"][0]
+
+    class PS(str):
+        """a path object wrapping a component"""
+
+    class NI(SymInterp):
+        def default_method(self, recv, m, args, e):
+            if isinstance(recv, str):
+                if m == "contains":
+                    return args[0] in recv
+                if m == "strip_suffix":
+                    return recv[:-len(args[0])] if args[0] and recv.endswith(args[0]) else None
+                if m == "strip_prefix":
+                    return recv[len(args[0]):] if recv.startswith(args[0]) else None
+                if m in ("trim_end_matches",):
+                    r = recv
+                    while args[0] and r.endswith(args[0]):
+                        r = r[:-len(args[0])]
+                    return r
+                if m == "replace":
+                    return recv.replace(args[0], args[1])
+                if m in ("to_lowercase", "to_ascii_lowercase"):
+                    return recv.lower()
+                if m in ("to_uppercase", "to_ascii_uppercase"):
+                    return recv.upper()
+                if m in ("into", "as_ref", "to_string", "to_owned", "to_str", "to_string_lossy", "as_os_str", "as_str", "deref", "borrow", "into_owned"):
+                    return str(recv) if not isinstance(recv, PS) else recv
+                if m == "file_stem":
+                    base = str(recv)
+                    if base.startswith(".") and base.count(".") == 1:
+                        return base
+                    return base.rsplit(".", 1)[0] if "." in base else base
+                if m == "extension":
+                    base = str(recv)
+                    return base.rsplit(".", 1)[1] if "." in base.lstrip(".") else None
+                if m == "with_extension":
+                    base = str(recv)
+                    stem = base.rsplit(".", 1)[0] if "." in base else base
+                    return PS(stem + ("." + args[0] if args[0] else ""))
+                if m in ("split", "rsplit") and isinstance(args[0], str):
+                    return recv.split(args[0]) if m == "split" else list(reversed(recv.split(args[0])))
+                if m in ("split_once", "rsplit_once"):
+                    if args[0] not in recv:
+                        return None
+                    a, b = (recv.split(args[0], 1) if m == "split_once" else recv.rsplit(args[0], 1))
+                    return (a, b)
+                if m == "len":
+                    return len(recv)
+            if isinstance(recv, list) and m == "next":
+                return recv.pop(0) if recv else None
+            if m in ("and_then", "map") and len(args) == 1 and not isinstance(recv, list):
+                if recv is None:
+                    return None
+                return self.call_closure(args[0], [recv])
+            if m == "unwrap_or" and len(args) == 1:
+                return args[0] if recv is None else recv
+            return super().default_method(recv, m, args, e)
+    samples = ["json", "json.v1", "json.v2", "json-v1", "x.capy", "x", "a.b.capy", "a.b", "a-b", "lib.old", "lib.new", ".hidden", "v1.2.3", "v1.2.4",
+               "Foo", "foo", "FOO.v1", "foo.v1", "a_b", "a b", "x.CAPY", " x", "x "]
+    images = {}
+    failed = None
+    for c_ in samples:
+        it = NI(funcs={"Path::new": lambda i, a: PS(a[0]), "std::path::Path::new": lambda i, a: PS(a[0]), "Cow::Borrowed": lambda i, a: a[0], "Cow::Owned": lambda i, a: a[0],
+                       "String::from": lambda i, a: a[0]})
+        try:
+            r = it.call_closure(("closure", clo, {}), [c_])
+        except (Panic, CannotEstablish) as ce:
+            failed = "cannot establish how the component `%s` is normalised: %s" % (c_, getattr(ce, "what", ce))
+            break
+        images.setdefault(str(r), []).append(c_)
+    if failed:
+        run.finding(F, "normalisation-unknown", fn.file, clo["ln"], failed)
+    else:
+        def explained(a, b):
+            na, nb = a, b
+            for x in (0, 1):
+                na = na[:-5] if na.endswith(".capy") else na
+                nb = nb[:-5] if nb.endswith(".capy") else nb
+            return na.replace(".", "-") == nb.replace(".", "-")
+        new = []
+        for img, pre in images.items():
+            for i_ in range(len(pre)):
+                for j_ in range(i_ + 1, len(pre)):
+                    if not explained(pre[i_], pre[j_]):
+                        new.append((pre[i_], pre[j_], img))
+        if new:
+            a, b, img = new[0]
+            run.finding(F, "collision:%s~%s" % (a, b), fn.file, clo["ln"],
+                        "the directory components `%s` and `%s` both become the symbol part `%s` (%d such pairs among %d sample components): files below them with equal "
+                        "remaining paths and names get one symbol" % (a, b, img, len(new), len(samples)))
+        else:
+            run.ok(fn.site(clo["ln"]), "component normalisation evaluated on %d sample components: no collision beyond the reported '.'->'-' and .capy-strip ones" % len(samples))
     # src skip: index tested vs index dropped, for is_mod in {true,false}
     tested = None
     for n in walk(fn.body):
